@@ -391,4 +391,7 @@ def run(ctx, replay=None):
         ctx.sample({"direction": "B", "opt_event": byid[k[0]]})
     ctx.notes["systems"] = len(sysl)
     ctx.notes["classes"] = sorted({c for c, _, _ in sysl})
+    # the signal-processing application as a driver of real-use systems (Lorenz.tla; circulant quaternion systems)
+    from .. import lorenzapp
+    lorenzapp.stage(ctx, quick=ctx.tier != "thorough")
     return "model_checking"
